@@ -24,7 +24,7 @@ func runC12(c *Ctx) {
 	runC12Own(c)
 	// a message reaches the wire once and unchanged only if the bytes of a segment already handed to the muxer are not
 	// overwritten by the next batch: the payload-buffer freshness rule of C10 is part of this property too
-	c.onlyRules = map[string]bool{"segment-buffer-fresh": true}
+	c.onlyRules = map[string]bool{"segment-buffer-fresh": true, "segment-loop-exit": true}
 	defer func() { c.onlyRules = nil }()
 	runC10(c)
 }
